@@ -24,6 +24,10 @@ pub struct PropSpec {
     pub tape_len: usize,
     pub make: fn() -> Vec<Box<dyn Oracle>>,
     pub nt_rule: &'static str,
+    /// engine name recorded in summaries and replay files
+    pub engine: &'static str,
+    /// custom per-case runner (engines other than plain `seq`); `None` = run_seq with `make()`
+    pub runner: Option<fn(&PropSpec, &Case) -> SeqOutcome>,
 }
 
 pub fn spec(id: &str) -> Option<PropSpec> {
@@ -42,6 +46,16 @@ pub fn spec(id: &str) -> Option<PropSpec> {
         "C13" => Some(cyc::spec_c13()),
         "C14" => Some(cyc::spec_c14()),
         "C15" => Some(cyc::spec_c15()),
+        _ => None,
+    }
+}
+
+/// spec of one part of a property's check, selected by engine name
+pub fn spec_for(id: &str, engine: &str) -> Option<PropSpec> {
+    match (id, engine) {
+        ("C22", "fault") => Some(cyc::spec_c22_acyclic()),
+        ("C22", "faultlat") => Some(cyc::spec_c22_lattice()),
+        (_, "seq") => spec(id),
         _ => None,
     }
 }
